@@ -261,6 +261,8 @@ pub struct Config {
     pub quq: u32,
     /// number of trailing queries in the query - updates - query audit (2: every ordered pair of queries)
     pub quq_tail: u32,
+    /// additional update levels (beyond `quq`) after which only the observation suite is run
+    pub quq_cs: u32,
 }
 
 pub struct Report {
@@ -555,7 +557,7 @@ fn deep_dfs<S: System>(sys: &S, depth: u32, hist: &mut Vec<Step>, cx: &mut Cx, o
 }
 
 /// query - updates - query: see Config::quq
-fn quq_audit<S: System>(sys: &S, m: u32, tail: u32, hist: &mut Vec<Step>, cx: &mut Cx, out: &mut WorkerOut, sh: &Shared) {
+fn quq_audit<S: System>(sys: &S, m: u32, cs: u32, tail: u32, hist: &mut Vec<Step>, cx: &mut Cx, out: &mut WorkerOut, sh: &Shared) {
     cx.muted = true;
     let base = rebuild(sys, hist, cx);
     cx.muted = false;
@@ -589,7 +591,7 @@ fn quq_audit<S: System>(sys: &S, m: u32, tail: u32, hist: &mut Vec<Step>, cx: &m
             }
             cx.halt = false;
         }
-        quq_updates(sys, m, tail, q1, hist, cx, out, sh);
+        quq_updates(sys, m, cs, tail, q1, hist, cx, out, sh);
         hist.truncate(n0);
         if sh.stop.load(Ordering::Relaxed) {
             return;
@@ -597,7 +599,7 @@ fn quq_audit<S: System>(sys: &S, m: u32, tail: u32, hist: &mut Vec<Step>, cx: &m
     }
 }
 
-fn quq_updates<S: System>(sys: &S, left: u32, tail: u32, first_q: Option<u32>, hist: &mut Vec<Step>, cx: &mut Cx, out: &mut WorkerOut, sh: &Shared) {
+fn quq_updates<S: System>(sys: &S, left: u32, cs_left: u32, tail: u32, first_q: Option<u32>, hist: &mut Vec<Step>, cx: &mut Cx, out: &mut WorkerOut, sh: &Shared) {
     // the prefix in `hist` has been validated step by step on the way here (or is replayed muted)
     cx.muted = true;
     let base = rebuild(sys, hist, cx);
@@ -629,8 +631,17 @@ fn quq_updates<S: System>(sys: &S, left: u32, tail: u32, first_q: Option<u32>, h
             hist.pop();
             continue;
         }
+        // the whole observation suite on this object (it is not used further)
+        sys.check_state(&o, cx);
+        cx.classes.clear();
+        if !cx.viols.is_empty() {
+            file_viols(sys, cx, hist, out, sh);
+            hist.pop();
+            continue;
+        }
+        cx.halt = false;
         // every query, each on its own replay of prefix + update(s)
-        let qs = sys.query_ops(&o);
+        let qs = if left > 0 { sys.query_ops(&o) } else { vec![] };
         drop(o);
         for q in qs {
             cx.muted = true;
@@ -678,7 +689,9 @@ fn quq_updates<S: System>(sys: &S, left: u32, tail: u32, first_q: Option<u32>, h
             hist.pop();
         }
         if left > 1 {
-            quq_updates(sys, left - 1, tail, first_q, hist, cx, out, sh);
+            quq_updates(sys, left - 1, cs_left, tail, first_q, hist, cx, out, sh);
+        } else if cs_left > 0 {
+            quq_updates(sys, 0, cs_left - 1, tail, first_q, hist, cx, out, sh);
         }
         hist.pop();
         if sh.stop.load(Ordering::Relaxed) {
@@ -805,7 +818,7 @@ fn worker<S: System>(sys: &S, cfg: &Config, sh: &Shared, wid: usize) -> WorkerOu
             }
             if cfg.quq > 0 {
                 let mut h2 = hist.clone();
-                quq_audit(sys, cfg.quq, cfg.quq_tail, &mut h2, &mut cx, &mut out, sh);
+                quq_audit(sys, cfg.quq, cfg.quq_cs, cfg.quq_tail, &mut h2, &mut cx, &mut out, sh);
             }
             rt::hist_idle();
         }
